@@ -32,8 +32,11 @@ namespace occa {
       typelessArray(),
       memory_(mem) {
 
-      memory_.setDtype(dtype::get<T>());
-      setupTypelessArray(memory_);
+      // An empty array has no memory
+      if (memory_.isInitialized()) {
+        memory_.setDtype(dtype::get<T>());
+        setupTypelessArray(memory_);
+      }
     }
     array(const array<T> &other) :
       typelessArray(other),
@@ -96,13 +99,16 @@ namespace occa {
 
     void resize(occa::device device, const dim_t size) {
       if (size == (dim_t) length()) {
+        if (!device_.isInitialized()) {
+          setupTypelessArray(device, dtype::get<T>());
+        }
         return;
       }
 
       occa::memory prevMemory = memory_;
       memory_ = device.malloc<T>(size);
 
-      if (prevMemory.isInitialized()) {
+      if (prevMemory.isInitialized() && memory_.isInitialized()) {
         if (prevMemory.length() < memory_.length()) {
           prevMemory.copyTo(memory_);
         } else {
@@ -110,7 +116,8 @@ namespace occa {
         }
       }
 
-      setupTypelessArray(memory_);
+      // An empty array has no memory but keeps its device
+      setupTypelessArray(device, dtype::get<T>());
     }
 
     udim_t length() const {
@@ -318,6 +325,14 @@ namespace occa {
     array concat(const array &other) const {
       const udim_t entries = memory_.length();
       const udim_t other_entries = other.memory_.length();
+
+      // Empty arrays don't have memory to copy from
+      if (!other_entries) {
+        return clone();
+      }
+      if (!entries) {
+        return other.clone();
+      }
 
       occa::memory ret = getDevice().template malloc<T>(entries + other_entries);
       ret.copyFrom(memory_, entries, 0);
